@@ -1,7 +1,8 @@
 (* C08 — cell syntax is an unambiguous, escapable encoding of nested lists.
    Only property theorems here, each closed by [exact] and followed by Print Assumptions. *)
-From Coq Require Import List NArith Bool.
-From RPFT Require Import Base.Sexp Base.PyStr Gen.Tables Cell.Cell Cell.CellFacts.
+From Coq Require Import List NArith ZArith Bool.
+From RPFT Require Import Base.Sexp Base.PyStr Base.Result Gen.Tables Cell.Cell Cell.CellFacts
+  Tmpl.MiniJinja Cell.CellParseFacts Cell.CellSession Cell.CellSessionFacts.
 Import ListNotations.
 Local Open Scope N_scope.
 
@@ -90,3 +91,144 @@ Example C08_u0001_roundtrip :
   end.
 Proof. exact u0001_roundtrip. Qed.
 Print Assumptions C08_u0001_roundtrip.
+
+(* 8. lists that END IN A BLANK element — outside the domain of the property (statement 2), but what a packed
+   row model with an empty str field needs (C07, finding packed-model-blank-value-under-nonblank-default).
+   wfb_any = wfb without the condition on the last element.  Decided by the probed constant
+   join_keeps_blank_last (translator/tables_rowfix.py): on the repaired tree join_from_lists writes a trailing
+   separator after an empty last part and EVERY such list comes back; on the other tree [a, ""] is written a|
+   and read back as [a]. *)
+Theorem C08_blank_last_roundtrip_decided :
+  if join_keeps_blank_last
+  then forall v, wfb_any v = true -> exists txt, join_from_lists 0 v = Some txt /\ split_into_lists txt = trim v
+  else ~ (forall v, wfb_any v = true -> exists txt, join_from_lists 0 v = Some txt /\ split_into_lists txt = trim v).
+Proof. exact blank_last_roundtrip_decided. Qed.
+Print Assumptions C08_blank_last_roundtrip_decided.
+
+Theorem C08_blank_last_witness :
+  wfb_any w_blank_last = true /\ wfb w_blank_last = false
+  /\ join_from_lists 0 w_blank_last
+     = Some (if join_keeps_blank_last then [97; sep0; sep0] else [97; sep0])
+  /\ split_into_lists [97; sep0; sep0] = w_blank_last
+  /\ split_into_lists [97; sep0] = Lst [Str [97]].
+Proof. exact blank_last_witness. Qed.
+Print Assumptions C08_blank_last_witness.
+
+(* the domain of the round trip on the tree at hand contains the property's domain (so statement 2 is
+   unaffected by the repair) *)
+Theorem C08_list_roundtrip_tree : forall v,
+  wfb_tree v = true -> exists txt, join_from_lists 0 v = Some txt /\ split_into_lists txt = trim v.
+Proof. exact list_roundtrip_tree. Qed.
+Print Assumptions C08_list_roundtrip_tree.
+
+Theorem C08_wfb_in_wfb_tree : forall v, wfb v = true -> wfb_tree v = true.
+Proof. exact wfb_wfb_tree. Qed.
+Print Assumptions C08_wfb_in_wfb_tree.
+
+(* ---- 8. ONE CellParser object working through a history of calls (Cell/CellSession.v: cp_state = what the
+   object holds after __init__, cp_op = the calls of the public API, cp_run = a history).
+   The object's state after any history is the state it was created with, and every result is the
+   result of the same call on the object as created. *)
+Theorem C08_history_run_is_map : forall st ops, cp_run st ops = (st, map (cp_apply st) ops).
+Proof. exact cp_run_spec. Qed.
+Print Assumptions C08_history_run_is_map.
+
+Theorem C08_history_independent : forall st pre op post,
+  nth_error (snd (cp_run st (pre ++ op :: post))) (length pre) = Some (cp_apply st op).
+Proof. exact cp_history_independent. Qed.
+Print Assumptions C08_history_independent.
+
+Theorem C08_same_call_same_result : forall st pre1 pre2 op,
+  nth_error (snd (cp_run st (pre1 ++ [op]))) (length pre1)
+  = nth_error (snd (cp_run st (pre2 ++ [op]))) (length pre2).
+Proof. exact cp_same_call_same_result. Qed.
+Print Assumptions C08_same_call_same_result.
+
+(* 9. "templates are expanded before splitting": parse is the split of exactly the string parse_as_string
+   hands back (the stripped cell on the fast path, the rendered text otherwise); a native {@ @} result is
+   never split; which of the two it is depends on the text of THIS cell only *)
+Theorem C08_parse_fast_path : forall fl pe pn octx c,
+  fast_path octx (show_cell c) = true ->
+  parse_f fl pe pn octx c = Ok (PNv (split_into_lists (strip (show_cell c)))).
+Proof. exact parse_fast. Qed.
+Print Assumptions C08_parse_fast_path.
+
+Theorem C08_expand_then_split : forall fl pe pn octx c s,
+  parse_as_string_f fl pe pn octx c = Ok (PStr s) ->
+  parse_f fl pe pn octx c = Ok (PNv (split_into_lists s)).
+Proof. exact expand_then_split. Qed.
+Print Assumptions C08_expand_then_split.
+
+Theorem C08_native_result_not_split : forall fl pe pn octx c v,
+  parse_as_string_f fl pe pn octx c = Ok (PObj v) ->
+  parse_f fl pe pn octx c = Ok (PObj v).
+Proof. exact native_result_not_split. Qed.
+Print Assumptions C08_native_result_not_split.
+
+Theorem C08_result_kind_by_text : forall fl pe pn octx c r,
+  parse_as_string_f fl pe pn octx c = Ok r ->
+  if fast_path octx (show_cell c) then r = PStr (strip (show_cell c))
+  else if is_native_text (show_cell c) then exists v, r = PObj v
+  else exists s, r = PStr s.
+Proof. exact result_kind_by_text. Qed.
+Print Assumptions C08_result_kind_by_text.
+
+(* 10. the statements of 1-3 for PARSE (strip the cell, then split), at any point of any history *)
+Theorem C08_string_roundtrip_in_history : forall st pre post octx s,
+  str_ok s = true -> fast_path octx (escape s) = true ->
+  nth_error (snd (cp_run st (pre ++ OpParse octx (plain_cell (escape s)) :: post))) (length pre)
+  = Some (RCell (Ok (PNv (Str (strip s))))).
+Proof. exact string_roundtrip_in_history. Qed.
+Print Assumptions C08_string_roundtrip_in_history.
+
+(* every nested list (depth <= 2, lists non-empty) whose lists do not end in a BLANK string - wfb v and wfb (trim v) -
+   survives join + PARSE (strip the cell, then split), trimmed ... *)
+Theorem C08_list_parse_roundtrip : forall v,
+  wfb v = true -> wfb (trim v) = true ->
+  exists txt, join_from_lists 0 v = Some txt /\ split_into_lists (strip txt) = trim v.
+Proof. exact list_parse_roundtrip. Qed.
+Print Assumptions C08_list_parse_roundtrip.
+
+(* ... at any point of any history of the parser ... *)
+Theorem C08_list_roundtrip_in_history : forall st pre post octx v txt,
+  wfb v = true -> wfb (trim v) = true -> join_from_lists 0 v = Some txt -> fast_path octx txt = true ->
+  nth_error (snd (cp_run st (pre ++ OpParse octx (plain_cell txt) :: post))) (length pre)
+  = Some (RCell (Ok (PNv (trim v)))).
+Proof. exact list_roundtrip_in_history. Qed.
+Print Assumptions C08_list_roundtrip_in_history.
+
+(* ... and the condition on the trimmed value cannot be dropped (the cell "a| " is stripped before it is split) *)
+Example C08_parse_needs_nonblank_last :
+  let v := Lst [Str [97]; Str [32]] in
+  wfb v = true /\ wfb (trim v) = false
+  /\ join_from_lists 0 v = Some [97; 124; 32]
+  /\ split_into_lists [97; 124; 32] = trim v
+  /\ split_into_lists (strip [97; 124; 32]) = Lst [Str [97]].
+Proof. exact parse_needs_nonblank_last. Qed.
+Print Assumptions C08_parse_needs_nonblank_last.
+
+Theorem C08_no_sep_is_string_in_history : forall st pre post octx s,
+  no_unescaped_sep (strip s) -> fast_path octx s = true ->
+  nth_error (snd (cp_run st (pre ++ OpParse octx (plain_cell s) :: post))) (length pre)
+  = Some (RCell (Ok (PNv (Str (cleanse_str (strip s)))))).
+Proof. exact no_sep_is_string_in_history. Qed.
+Print Assumptions C08_no_sep_is_string_in_history.
+
+Theorem C08_unescaped_sep_is_list_in_history : forall st pre post octx s,
+  ~ no_unescaped_sep (strip s) -> fast_path octx s = true ->
+  exists l, nth_error (snd (cp_run st (pre ++ OpParse octx (plain_cell s) :: post))) (length pre)
+            = Some (RCell (Ok (PNv (Lst l)))).
+Proof. exact unescaped_sep_is_list_in_history. Qed.
+Print Assumptions C08_unescaped_sep_is_list_in_history.
+
+(* a history with a native cell and a failing cell before a plain cell, computed *)
+Example C08_history_nonvacuous :
+  let native := OpParse (Some []) (CNative (EList [EInt 1%Z; EInt 2%Z])) in
+  let failing := OpParseAsString (Some []) (CTmpl [NOut (EVar [120])]) in
+  let cell := OpParse (Some []) (plain_cell [97; 124; 98; 92; 59; 99]) in
+  snd (cp_run cp_init [native; failing; cell])
+  = [RCell (Ok (PObj (VList [VInt 1%Z; VInt 2%Z])));
+     RCell (match env_undefined_policy with Strict => Err EUndefined | Lenient => Ok (PStr []) end);
+     RCell (Ok (PNv (Lst [Str [97]; Str [98; 59; 99]])))].
+Proof. exact history_example. Qed.
+Print Assumptions C08_history_nonvacuous.
